@@ -567,6 +567,7 @@ DB = "nostr_relay/storage/db.py"
 BASE = "nostr_relay/storage/base.py"
 
 MUTANTS = [
+    M("c02-planner-truthy-window", "nostr_relay/storage/kv.py", "            query.since is None and query.until is None\n", "            not query.since and not query.until\n", "C02.ge0"),
     M("c02-row-skipped", "nostr_relay/storage/db.py", "                                yield event_from_tuple(row)\n", "                                if not row[4]:\n                                    continue\n                                yield event_from_tuple(row)\n", "C02.rows"),
     M("c02-stream-wait-for", "nostr_relay/storage/db.py", "                            async for row in result:\n                                yield event_from_tuple(row)", "                            async for row in result:\n                                int(row[4][0][1])\n                                yield event_from_tuple(row)", "C02.rows"),
 ] + [
